@@ -1245,46 +1245,80 @@ func c17RunSeq(x *vx.X) vx.Result {
 	hctx := creds.NewCredentialHelperContext(cx.GitEnv(), cx.OSEnv()) // ONE context for the whole sequence
 	mayBeCached := map[string]bool{}
 	var hist, descs []string
-	for k, e := range exs {
-		user, pass, path := "user", "pw", "org/repo.git"
-		www := []string{"Basic realm=\"r\"", "Bearer t"}
-		at := func(base string) int { return []int{0, len(base) / 2, len(base)}[e.pos] }
-		if e.field >= 0 {
-			switch c17SeqFields[e.field] {
-			case "username":
-				user = c17Place(user, c17Pct(e.seq[0]), at(user))
-			case "password":
-				pass = c17Place(pass, e.seq, at(pass))
-			case "path":
-				path = c17Place(path, c17Pct(e.seq[0]), at(path))
-			case "wwwauth[]#1":
-				www[1] = c17Place(www[1], e.seq, at(www[1]))
-			case "wwwauth[]#0":
-				www[0] = c17Place(www[0], e.seq, at(www[0]))
+	// Order of the steps.  An exchange is two steps on the shared context: GET (GetCredentialHelper builds the helper chain and
+	// the input map for a URL) and USE (fill / approve / reject through that chain).  git-lfs runs exchanges from several
+	// goroutines (transfer workers) on ONE context, so the steps of two exchanges interleave; every order in which each GET
+	// precedes its USE is enumerated for two exchanges (order 0 = one exchange after the other, as before).
+	type prepared struct {
+		e    c17Exch
+		u    *url.URL
+		wr   creds.CredentialHelperWrapper
+		m    creds.Creds
+		pass string
+	}
+	orders := [][]string{{"g0", "u0", "g1", "u1"}}
+	if len(exs) == 2 {
+		orders = append(orders, []string{"g0", "g1", "u0", "u1"}, []string{"g0", "g1", "u1", "u0"}, []string{"g1", "g0", "u0", "u1"}, []string{"g1", "g0", "u1", "u0"})
+	} else if len(exs) == 3 {
+		orders = [][]string{{"g0", "u0", "g1", "u1", "g2", "u2"}}
+	}
+	order := orders[x.In(len(orders))]
+	orderName := strings.Join(order, "")
+	prep := map[int]*prepared{}
+	nUsed := 0
+	for _, step := range order {
+		k := int(step[1] - '0')
+		e := exs[k]
+		if step[0] == 'g' {
+			user, pass, path := "user", "pw", "org/repo.git"
+			www := []string{"Basic realm=\"r\"", "Bearer t"}
+			at := func(base string) int { return []int{0, len(base) / 2, len(base)}[e.pos] }
+			if e.field >= 0 {
+				switch c17SeqFields[e.field] {
+				case "username":
+					user = c17Place(user, c17Pct(e.seq[0]), at(user))
+				case "password":
+					pass = c17Place(pass, e.seq, at(pass))
+				case "path":
+					path = c17Place(path, c17Pct(e.seq[0]), at(path))
+				case "wwwauth[]#1":
+					www[1] = c17Place(www[1], e.seq, at(www[1]))
+				case "wwwauth[]#0":
+					www[0] = c17Place(www[0], e.seq, at(www[0]))
+				}
 			}
+			u, err := url.Parse("https://" + user + "@" + c17SeqHosts[e.host] + "/" + path)
+			if err != nil {
+				panic(vx.ToolError{Msg: "C17 sequence: generated URL does not parse: " + err.Error()})
+			}
+			hctx.SetWWWAuthHeaders(www) // as lfsapi does from the previous 401 before asking for credentials
+			wr := hctx.GetCredentialHelper(nil, u)
+			m := c17CopyCreds(wr.Input)
+			if e.op != "fill" || (e.field >= 0 && c17SeqFields[e.field] == "password") {
+				m["password"] = []string{pass}
+			}
+			prep[k] = &prepared{e: e, u: u, wr: wr, m: m, pass: pass}
+			continue
 		}
-		u, err := url.Parse("https://" + user + "@" + c17SeqHosts[e.host] + "/" + path)
-		if err != nil {
-			panic(vx.ToolError{Msg: "C17 sequence: generated URL does not parse: " + err.Error()})
-		}
-		hctx.SetWWWAuthHeaders(www) // as lfsapi does from the previous 401 before asking for credentials
-		wr := hctx.GetCredentialHelper(nil, u)
-		m := c17CopyCreds(wr.Input)
-		if e.op != "fill" || (e.field >= 0 && c17SeqFields[e.field] == "password") {
-			m["password"] = []string{pass}
-		}
+		pr := prep[k]
+		u, wr, m := pr.u, pr.wr, pr.m
 		protect := w.protect(e.host)
 		ckey := strings.Join([]string{creds.FirstEntryForKey(m, "protocol"), creds.FirstEntryForKey(m, "host"), creds.FirstEntryForKey(m, "path")}, "//")
 		o.cacheMayAnswer = cacheOn && e.op != "reject" && mayBeCached[ckey]
 		o.fpSuffix = ""
-		if k > 0 {
-			o.fpSuffix = fmt.Sprintf(":seq-ex%d-%s-after-%s", k+1, c17HostProt(w, e.host), strings.Join(hist, ","))
+		if nUsed > 0 {
+			o.fpSuffix = fmt.Sprintf(":seq-ex%d-%s-after-%s", nUsed+1, c17HostProt(w, e.host), strings.Join(hist, ","))
+		}
+		if orderName != "g0u0g1u1" && len(exs) == 2 {
+			// interleaved steps: the other exchange's GET lies between this exchange's GET and USE (or both GETs precede both USEs)
+			other := exs[1-k]
+			o.fpSuffix = fmt.Sprintf(":interleaved-%s-with-%s", c17HostProt(w, e.host), c17HostProt(w, other.host))
 		}
 		// root-cause condition of finding-1: the lookup string scheme://host/<decoded path> does not parse and a
 		// URL-scoped setting for this host says something else than the global/default fallback
 		_, lookupErr := url.Parse(fmt.Sprintf("%s://%s%s", u.Scheme, u.Host, u.Path))
 		o.scopedIgnored = lookupErr != nil && e.host < 2 && w[e.host+1] != 0 && protect != (c17World{w[0], 0, 0}).protect(e.host)
-		o.caseKey = fmt.Sprintf("%s/cache=%v/%s|%s", w.name(), cacheOn, strings.Join(descs, "|"), e.String())
+		o.caseKey = fmt.Sprintf("%s/cache=%v/%s/%s|%s", w.name(), cacheOn, orderName, strings.Join(descs, "|"), e.String())
 		o.call(wr.CredentialHelper, e.op, m, protect)
 		switch e.op {
 		case "approve":
@@ -1294,9 +1328,10 @@ func c17RunSeq(x *vx.X) vx.Result {
 		}
 		hist = append(hist, c17HostProt(w, e.host))
 		descs = append(descs, e.String())
+		nUsed++
 	}
 	c17Finish(o, &r, "sequence", fmt.Sprintf("len=%d", len(exs)))
-	r.Sample = map[string]interface{}{"scenario": "sequence", "world(global,A,B)": w.name(), "config": fmt.Sprintf("%q", cfg), "exchanges": descs, "outcome": r.Outcome}
+	r.Sample = map[string]interface{}{"scenario": "sequence", "world(global,A,B)": w.name(), "config": fmt.Sprintf("%q", cfg), "exchanges": descs, "step_order": orderName, "outcome": r.Outcome}
 	return r
 }
 
@@ -1537,10 +1572,10 @@ func TestVerifC17(t *testing.T) {
 		"all 256 single bytes x every index x every slot (quick: approve x {unset,false}; thorough: all ops x all 5 configurations), all ordered slot pairs x {LF,CR,NUL,'x'}^2, value shapes (empty, 1 byte, 70 kB with the byte first/middle/last, single-key map, 3 values). " +
 		"url: maps built by GetCredentialHelper from URLs: 5 scheme/useHttpPath variants x component {user, password, path, host, user+path} x {percent-encoded, raw} x all 256 bytes x {start, middle, end} x {protection unset, false}; wwwauth[]/state[] lists set on the context x palette x position x skipwwwauth. " +
 		"flow: Client.DoWithAuth against a loopback server: 13 modes (raw byte in WWW-/LFS-Authenticate header values, percent-encoded byte in lfs.url / remote URL userinfo and path, byte in the helper's own answer that is fed back into approve / state[] of the next fill) x all 256 bytes x 3 positions x {unset,false}. " +
-		"sequence: 2 (thorough: also 3) exchanges in ONE CredentialHelperContext (shared command helper, cache, context lists): world = (global, URL-scoped for host A, URL-scoped for host B) credential.protectProtocol in {unset,false,true}^3 " +
+		"sequence (every order of the GET and USE steps of two exchanges on one context in which each GET precedes its USE): 2 (thorough: also 3) exchanges in ONE CredentialHelperContext (shared command helper, cache, context lists): world = (global, URL-scoped for host A, URL-scoped for host B) credential.protectProtocol in {unset,false,true}^3 " +
 		"(quick: 9-world slice; thorough: all 27) x earlier exchange(s) {host A,B,C(never configured)} x {approve,fill,reject} (thorough: x {clean, CR in username}) x last exchange host x operation x field {username, password, path, wwwauth[] entry} x {CR,LF,NUL,clean byte} x {start,middle,end} " +
 		"(quick and 3-exchange: 4 fields, CR at 3 positions, the others in the middle; thorough adds lfs.cachecredentials=false on the 9-world slice); each exchange judged under the configuration applying to ITS url. " +
-		"distinct_nontrivial = distinct (operation, protection, supplied map) tuples whose values contain at least one control / non-ASCII byte and for which a helper call was made and judged (flow: distinct (protection, mode, byte, position, call number) with such a map, because those maps contain an ephemeral port; sequence: distinct (world, cache, exchange sequence, call number) with such a map); plain-ASCII cases only count as evaluations"
+		"distinct_nontrivial = distinct (operation, protection, supplied map) tuples whose values contain at least one control / non-ASCII byte and for which a helper call was made and judged (flow: distinct (protection, mode, byte, position, call number) with such a map, because those maps contain an ephemeral port; sequence (every order of the GET and USE steps of two exchanges on one context in which each GET precedes its USE): distinct (world, cache, exchange sequence, call number) with such a map); plain-ASCII cases only count as evaluations"
 	c.Assumptions = []string{
 		"the `git` found first on PATH is a recording stub; what `git credential` itself does with its input is outside the property",
 		"'refused' is read as: the call returns an error and the helper process received no input",
